@@ -181,7 +181,8 @@ Proof. exact source_fns_ok. Qed.
 Print Assumptions C04_source_functions_ok.
 
 Theorem C04_source_groupby_ok :
-  gfn_ok false gen_groupby_do_fn && gfn_ok true gen_groupby_map_fn && gen_groupby_count_agg_skeleton_ok = true.
+  gfn_ok false gen_groupby_do_fn && gfn_ok true gen_groupby_map_fn &&
+  (gcomp_ok false gen_groupby_count && gcomp_ok true gen_groupby_agg && gen_shuffle_groupby_skeleton_ok) = true.
 Proof. exact source_groupby_ok. Qed.
 Print Assumptions C04_source_groupby_ok.
 
@@ -266,6 +267,34 @@ Theorem C04_grouplist_all_reached : forall scs sc m members s s' logs,
   group_lists (exN scs) sc m members s = (s', logs, false) -> logs = groups_of m members.
 Proof. exact group_lists_all. Qed.
 Print Assumptions C04_grouplist_all_reached.
+
+(* --- round 4 --- *)
+(* a callback raises inside a list group: the groups before are complete, that group's log is the part of
+   its list up to and including the raiser, later groups are not reached *)
+Theorem C04_grouplist_exception_shape : forall scs sc m members s s' logs,
+  group_lists (exN scs) sc m members s = (s', logs, true) ->
+  exists gs1 key pre r post gs2,
+    groups_of m members = gs1 ++ (key, pre ++ r :: post) :: gs2 /\ logs = gs1 ++ [(key, pre ++ [r])].
+Proof. exact group_lists_raised. Qed.
+Print Assumptions C04_grouplist_exception_shape.
+
+(* GroupBy.count() on any set of any reachable state: keys in first-seen order, each count is the number of
+   members with that key, and the counts add up to the size of the set *)
+Theorem C04_groupby_count_partition : forall ops r m members,
+  lookup r (sets (reached ops)) = Some members ->
+  map fst (group_count (groups_of m members) (reached ops)) = group_keys m members /\
+  (forall k c, In (k, c) (group_count (groups_of m members) (reached ops)) ->
+               c = Z.of_nat (length (filter (fun a => gkey m a =? k) members))) /\
+  zsum (map snd (group_count (groups_of m members) (reached ops))) = Z.of_nat (length members).
+Proof. exact reached_count. Qed.
+Print Assumptions C04_groupby_count_partition.
+
+(* GroupBy.count / agg of the working tree (translated, not compared as text) are the model's functions *)
+Theorem C04_source_count_agg : forall f attr gs s,
+  run_gcomp gen_groupby_count f attr gs s = group_count gs s /\
+  run_gcomp gen_groupby_agg f attr gs s = group_agg f attr gs s.
+Proof. exact source_count_agg. Qed.
+Print Assumptions C04_source_count_agg.
 
 (* ------------------------------------------------------------------ non-vacuity *)
 Definition ex_ops : list op :=
@@ -382,3 +411,14 @@ Example C04_example_group_bridge :
   exists s', run_gfn (ex1 []) ex_sc gen_groupby_do_fn true gen_do_fn false (groups_of 2 [5; 4; 2; 1]) [] (reached ex_ops)
              = Some (s', [(1, [5; 1]); (0, [4])], false).
 Proof. eexists. vm_compute. reflexivity. Qed.
+
+(* list groups, agent 3 raises: group 1 = [1;3] is cut after 3, group 0 is not reached *)
+Example C04_example_grouplist_raise :
+  exists s', group_lists (exN []) [(3, [Raise])] 2 [1; 2; 3; 4] (reached ex_ops4) = (s', [(1, [1; 3])], true) /\ cur s' = [].
+Proof. eexists. vm_compute. repeat split. Qed.
+
+Example C04_example_count :
+  group_count (groups_of 3 [5; 4; 2; 1]) (reached ex_ops) = [(2, 2); (1, 2)] /\
+  group_agg zsum (fun a => a) (groups_of 3 [5; 4; 2; 1]) (reached ex_ops) = [(2, 7); (1, 5)] /\
+  run_gcomp gen_groupby_count zsum (fun a => a) (groups_of 3 [5; 4; 2; 1]) (reached ex_ops) = [(2, 2); (1, 2)].
+Proof. vm_compute. repeat split. Qed.
